@@ -1,6 +1,7 @@
 package props
 
 import (
+	"fmt"
 	"go/token"
 	"go/types"
 
@@ -17,7 +18,7 @@ func checkC20(p *load.Program, r *kit.Report) {
 	r.Rule("LOCKSET", "lookup/list/lastSaved and the Score/LastTime of stored peers are accessed only under the repository lock (constructor and LoadSeeds, which runs before any thread exists, exempt)", 15)
 	r.Rule("PAIRED-UPDATE", "every append to list is followed on the same path by lookup[address] = the same peer; in Add both are behind the lookup-miss edge", 3)
 	r.Rule("SCORE-SHAPE", "UpdateScore stores Score + delta into the looked-up peer; Get keeps a peer exactly when Score >= minScore and (maxScore == -1 or Score <= maxScore)", 2)
-	r.Rule("CODEC-SYM", "Peer.write + Save's header and readPeer + Load's header agree item by item", 2)
+	r.Rule("CODEC-SYM", "Peer.write + Save's header and readPeer + Load's header agree item by item; readPeer accepts every address length the writer emits (0 included)", 3)
 	r.Rule("ALLOC-BOUND", "sizes decoded from the peers file (count, address size) never size an allocation without an upper bound derived from the data present and a non-negative test", 1)
 	r.Rule("MUST-PASS", "Load keeps every fully decoded peer: a decoding error ends the loop without an error return; Save writes on every successful path unless a dirty flag that every mutator sets says nothing changed", 2)
 
@@ -231,6 +232,66 @@ func checkC20(p *load.Program, r *kit.Report) {
 	// CODEC-SYM
 	wr, rd := fn(p, r, "CODEC-SYM", R, "Peer.write"), fn(p, r, "CODEC-SYM", R, "readPeer")
 	codecPair(p, r, "CODEC-SYM", "Peer.write↔readPeer", wr, rd, nil, 0, 0)
+	// the reader accepts every length the writer can emit: Peer.write stores int32(len(Address))
+	// without a lower bound (Add accepts the empty address), so readPeer may refuse negative
+	// sizes only
+	if rd != nil {
+		var size ssa.Value
+		var copyN *ssa.Call
+		kit.AllInstrs(rd, func(in ssa.Instruction) {
+			if c, ok := in.(*ssa.Call); ok && kit.CallID(c) == "io.CopyN" && copyN == nil {
+				copyN = c
+			}
+		})
+		bad := ""
+		if copyN == nil {
+			bad = "the address bytes are not read with io.CopyN"
+		} else {
+			// the decoded size: the local whose address is passed to binary.Read and that feeds CopyN
+			kit.DependsOn(copyN.Call.Args[2], func(v ssa.Value) bool {
+				if u, ok := v.(*ssa.UnOp); ok {
+					if _, isAlloc := u.X.(*ssa.Alloc); isAlloc && size == nil {
+						size = u
+					}
+				}
+				return false
+			})
+			// evaluate from the binary.Read that fills that local
+			if u, ok := size.(*ssa.UnOp); ok {
+				size = nil
+				for _, ref := range *u.X.Referrers() {
+					if mi, ok := ref.(*ssa.MakeInterface); ok {
+						for _, r2 := range *mi.Referrers() {
+							if c, ok := r2.(*ssa.Call); ok && kit.CallID(c) == "encoding/binary.Read" {
+								size = c
+							}
+						}
+					}
+				}
+			}
+			if size == nil {
+				bad = "the length passed to io.CopyN is not the decoded address size"
+			} else {
+				for _, v := range []int64{-1, 0, 1, 17} {
+					outs, why := evalSlice(size, v, copyN, copyN.Call.Args[2])
+					for _, got := range outs {
+						switch {
+						case v < 0 && got != evalReturned:
+							bad = "a negative address size reaches io.CopyN"
+						case v >= 0 && got == evalReturned:
+							bad = fmt.Sprintf("a record with address length %d is refused although Peer.write produces it: that peer and every peer after it is dropped by Load", v)
+						case v >= 0 && got != v:
+							bad = fmt.Sprintf("address length %d is read as %d bytes", v, got)
+						}
+					}
+					if why != "" && v >= 0 {
+						bad = fmt.Sprintf("a record with address length %d is refused although Peer.write produces it (%s)", v, why)
+					}
+				}
+			}
+		}
+		r.Check(bad == "", "CODEC-SYM", "readPeer/accepts-writer-range", posOf(p, rd.Blocks[0].Instrs[0]), "address lengths 0, 1, … are read back; only negative sizes are refused", bad)
+	}
 	if sv, ld := fn(p, r, "CODEC-SYM", R, "StoragePeerRepository.Save"), fn(p, r, "CODEC-SYM", R, "StoragePeerRepository.Load"); sv != nil && ld != nil {
 		exp := map[string]bool{R + ".Peer.write": true, R + ".readPeer": true}
 		lw, lr := kit.WireLayout(sv, exp, 0), kit.WireLayout(ld, exp, 0)
